@@ -683,17 +683,26 @@ class Translator:
             n = len(state)
             T = self.tuple_ty(ty, n)
             init = []
+            undefined = [v for v in state if v not in env]
+            if undefined and not getattr(self, "spec", {}).get("loop_entry_obligation"):
+                # a skipped loop would leave these locals unbound (Python: UnboundLocalError when read later)
+                raise Refusal(f"while loop may be skipped with {', '.join(undefined)} unassigned: {first} "
+                              f"(spec key loop_entry_obligation emits <loop>_entered, which the theorems must prove)")
             for v in state:
                 if env.get(v) == "num":
                     init.append(san(v))
                 elif v not in env:
-                    init.append(f"(0 : {ty})")
-                    self.notes.append(f"while: {v} is unassigned before the loop (placeholder 0; Python raises UnboundLocalError "
-                                      f"when the body never runs and {v} is read)")
+                    # never read: the body must assign it before reading (checked below: it is not in scope),
+                    # and <loop>_entered (a proof obligation) says the body runs at least once
+                    init.append(f"(0 : {ty})" if R else "((0 : Float) / (0 : Float))")
+                    self.notes.append(f"while: {v} is unassigned before the loop; obligation {self.cur_name}_loop{self._loops + 1}_entered "
+                                      f"(the loop test holds in the start state) must be proved — Python raises UnboundLocalError otherwise; "
+                                      f"placeholder {'0' if R else 'NaN'} is never read (the body assigns {v} before reading it)")
                 else:
                     raise Refusal(f"loop variable {v} has kind {env[v]}")
             for v in state:
-                env_b[v] = "num"
+                if v not in undefined:
+                    env_b[v] = "num"
             unpack = "".join(f"let {san(v)} : {ty} := {self.proj('s_', i, n)}; " for i, v in enumerate(state))
             cnd = self.cond(st.test, d, env_b)
             body_lets = self.block(st.body, env_b, d, ty, [])
@@ -711,8 +720,22 @@ class Translator:
             self._loops += 1
             base = f"{self.cur_name}_loop{self._loops}"
             pre = "noncomputable def" if R else "def"
+            # the array reducer of the test is invisible in the pointwise term: it goes into the name
+            red = ""
+            if isinstance(st.test, ast.Call):
+                fname = st.test.func.attr if isinstance(st.test.func, ast.Attribute) else getattr(st.test.func, "id", "")
+                if fname in ("any", "all"):
+                    red = "_" + fname
+            cond_name = f"{base}_cond{red}"
+            if undefined:
+                defined = [v for v in state if v not in undefined]
+                self.aux_late.append(
+                    f"/-- obligation: the loop of {self.cur_name} is entered from the start state ({', '.join(defined)} as assigned before the\n"
+                    f"loop; {', '.join(undefined)} are unassigned there, so Python raises UnboundLocalError when the loop is skipped) -/\n"
+                    f"def {base}_entered {' '.join(fsig)} " + " ".join(f"({san(v)} : {ty})" for v in defined)
+                    + f" : {'Prop' if R else 'Bool'} :=\n  {ns_(R)}.{cond_name} {fargs} ({', '.join(init)})\n")
             self.aux.append(f"/-- `while {ast.unparse(st.test)}` of {self.cur_name}: the test, on the state ({', '.join(state)}) -/\n"
-                            f"{'def' if R else 'def'} {base}_cond {' '.join(fsig)} (s_ : {T}) : {'Prop' if R else 'Bool'} :=\n"
+                            f"{'def' if R else 'def'} {cond_name} {' '.join(fsig)} (s_ : {T}) : {'Prop' if R else 'Bool'} :=\n"
                             + "".join(f"  let {san(v)} : {ty} := {self.proj('s_', i, n)}\n" for i, v in enumerate(state))
                             + f"  {cnd}\n")
             self.aux.append(f"/-- the body of that loop: one iteration, state -> state -/\n"
@@ -720,13 +743,16 @@ class Translator:
                             + "".join(f"  let {san(v)} : {ty} := {self.proj('s_', i, n)}\n" for i, v in enumerate(state))
                             + "".join(f"  {l}\n" for l in body_lets) + f"  {tup}\n")
             ns = "TR" if R else "TF"
-            lets.append(f"let {tmp} : {T} := {loop} ({ns}.{base}_cond {fargs}) ({ns}.{base}_body {fargs}) ({', '.join(init)})")
+            self.aux += self.aux_late
+            self.aux_late = []
+            lets.append(f"let {tmp} : {T} := {loop} ({ns}.{cond_name} {fargs}) ({ns}.{base}_body {fargs}) ({', '.join(init)})")
             for i, v in enumerate(state):
                 lets.append(f"let {san(v)} : {ty} := {self.proj(tmp, i, n)}")
                 env[v] = "num"
                 assigned.append(v)
             self.uses_while = True
-            self.notes.append(f"while {ast.unparse(st.test)}: state ({', '.join(state)}); np.any over an array argument is modelled pointwise")
+            self.notes.append(f"while {ast.unparse(st.test)}: state ({', '.join(state)}); the reducer over an array argument "
+                              f"({red[1:] or 'none'}) is modelled pointwise and recorded in the name {cond_name}")
             return True
         return False
 
@@ -827,6 +853,8 @@ class Translator:
         self.cur_sig_names = [x.split(" : ")[0].lstrip("(") for x in sig]
         self.cur_name = san(fn.name)
         self.aux, self._loops = [], 0
+        self.aux_late = []
+        self.spec = spec
         lets, guards, notes = [], [], []
         guard_all = []
         body = list(fn.body)
@@ -977,6 +1005,10 @@ class Translator:
             else:
                 out.append(f"def {name_rej} {' '.join(gsig)} : Bool :=\n  " + " || ".join(guards) + "\n")
         return "\n".join(self.aux + out), notes + self.notes
+
+
+def ns_(real):
+    return "TR" if real else "TF"
 
 
 LEAN_KEYWORDS = {"at", "from", "in", "fun", "end", "then", "else", "if", "do", "let", "have", "show", "with", "open", "λ", "Type", "by"}
